@@ -82,7 +82,7 @@ class Facts:
         if not os.path.exists(kp):
             return
         known = set(json.load(open(kp)))
-        new = {p: bs[0] for p, bs in self.by_path.items() if p not in known and len(bs) == 1 and "::{" not in p
+        new = {p: bs[0] for p, bs in self.by_path.items() if p not in known and len(bs) == 1 and not p.split("::")[-1].startswith("{")
                and bs[0].get("kind") in ("Fn", "AssocFn") and not bs[0].get("impl_trait")}
         if not new:
             return
